@@ -16,7 +16,7 @@ def lower_pos(W):
 def gen_full_rank(r, N, D):
     g = gen.nprng(r)
     A = g.normal(size=(D, D)) + np.eye(D) * 2
-    return g.normal(size=(N, D)) @ A + g.normal(size=D) * r.choice([0, 5, 50])
+    return g.normal(size=(N, D)) @ A + g.normal(size=D) * r.choice([0, 5, 50]) + r.choice([0.0, 0.0, 1e4, 1e6])
 
 
 def run(chk):
